@@ -61,8 +61,10 @@ func vfBurstRun(or *ObjectRegistry, cfgs []map[string]string, done chan<- string
 }
 
 // vfBurstParkedInSend reports whether the vfBurstRun goroutine is parked in a channel send.
+var vfStackBuf = make([]byte, 1<<18)
+
 func vfBurstParkedInSend() bool {
-	buf := make([]byte, 1<<18)
+	buf := vfStackBuf
 	n := runtime.Stack(buf, true)
 	for _, g := range strings.Split(string(buf[:n]), "\n\n") {
 		if !strings.Contains(g, "supervisor.vfBurstRun") {
@@ -403,6 +405,7 @@ func TestVerifC20Supervisor(t *testing.T) {
 		preload := rapid.IntRange(0, 3).Draw(rt, "preload") == 0
 		probeKnown := rapid.IntRange(0, 11).Draw(rt, "probeKnown") == 0
 		lateAt := rapid.IntRange(0, 2*nsteps).Draw(rt, "lateAt") // >= nsteps: never
+		longBurstAt := rapid.IntRange(0, 2*nsteps).Draw(rt, "longBurstAt") // >= nsteps: never
 
 		var hist []string
 		model := map[string]*vfLive{}
@@ -451,7 +454,12 @@ func TestVerifC20Supervisor(t *testing.T) {
 			// stalled, e.g. inside a slow Init, while the registry keeps receiving snapshots)
 			k := 1
 			if !(preload && step == 0) && step != lateAt {
-				k = rapid.SampledFrom([]int{1, 1, 1, 1, 1, 1, 1, 1, 1, 1, 2, 3, 5, 8, 10, 11, 12, 13, 14}).Draw(rt, "burst")
+				if step == longBurstAt {
+					// at most one long burst per case (longer than, or close to, the watcher queue of 10)
+					k = rapid.IntRange(8, 14).Draw(rt, "longBurst")
+				} else {
+					k = rapid.SampledFrom([]int{1, 1, 1, 1, 1, 1, 2, 3}).Draw(rt, "burst")
+				}
 			}
 			if k > 1 {
 				vf.Class("burst-of-snapshots-before-draining")
